@@ -422,6 +422,11 @@ def drop_unresolvable(case, launches, default_env):
     return out
 
 
+def dflt_of(o):
+    """the default environment a child must get in this case (see config_h.expected_default)"""
+    return H.expected_default(o.get("parent_env"), o["default_env"])
+
+
 def _model_cmd(c):
     m = re.match(r"@D(\d+)/", c) if isinstance(c, str) else None
     return f"@W{m.group(1)}" if m else c
@@ -548,13 +553,13 @@ class Entry(Suite):
         else:
             f = {"k": "invalid"}
         entry = "cliTest" if case["entry"] == "cliMain" else case["entry"]
-        return {"m": "config", "entry": entry, "file": f, "names": case["names"], "dflt": o["default_env"],
+        return {"m": "config", "entry": entry, "file": f, "names": case["names"], "dflt": dflt_of(o),
                 "files": model_files(case)}
 
     def compare(self, case, o, m):
         if o.get("hang"):
             return "entry point did not return"
-        a = sorted(_launch_key(l) for l in drop_unresolvable(case, o["launches"], o["default_env"]))
+        a = sorted(_launch_key(l) for l in drop_unresolvable(case, o["launches"], dflt_of(o)))
         b = sorted(_launch_key({"cmd": _model_cmd(l["argv"][0]), "argv": l["argv"][1:], "env": l["env"]}) for l in m["launches"]
                    for _ in range(case.get("repeat", 1)))
         if a != b:
@@ -591,8 +596,8 @@ class Entry(Suite):
         if o.get("hang"):
             return (f"hang/{e}", f"{e} did not return within {H.ENTRY_TIMEOUT_S + 30:.0f} s", None)
         if case["expect"] == "valid":
-            want = expected_launches(case, o["default_env"]) * case.get("repeat", 1)
-            got = drop_unresolvable(case, o["launches"], o["default_env"])
+            want = expected_launches(case, dflt_of(o)) * case.get("repeat", 1)
+            got = drop_unresolvable(case, o["launches"], dflt_of(o))
             wk = sorted(_launch_key(l) for l in want)
             gk = sorted(_launch_key(l) for l in got)
             if wk != gk:
@@ -905,7 +910,7 @@ class Cli(Suite):
             docs[H._cli_model_path(loc)] = None if doc is None else model_doc(doc)
             files += [f"@D{i}/witness" for i in H.placeholders(doc or {})]
         return {"m": "host", "op": "cli", "argv": case["argv"], "existing": list(docs), "home": "@HOME", "docs": docs,
-                "dflt": o["default_env"], "files": files}
+                "dflt": dflt_of(o), "files": files}
 
     def compare(self, case, o, m):
         a = sorted(_launch_key(l) for l in o["launches"])
